@@ -38,6 +38,17 @@ pub struct ServerCodec {
 
 impl ServerCodec {
     fn decode_packet(&mut self, src: &mut BytesMut) -> Result<Option<InboundIn>, anyhow::Error> {
+        // wait until the whole packet (address, length, CRLF, payload) has arrived
+        let Some(addr_len) = address::try_decode_at(src, 0)? else {
+            return Ok(None);
+        };
+        if src.remaining() < addr_len + 2 + trojan::CR_LF.len() {
+            return Ok(None);
+        }
+        let len = u16::from_be_bytes([src[addr_len], src[addr_len + 1]]) as usize;
+        if src.remaining() < addr_len + 2 + trojan::CR_LF.len() + len {
+            return Ok(None);
+        }
         let peer_addr = address::decode(src)?;
         let len = src.get_u16();
         src.advance(trojan::CR_LF.len());
@@ -66,6 +77,9 @@ impl Decoder for ServerCodec {
                     bail!("not trojan protocol");
                 }
                 let key = src.split_to(56);
+                if !key.iter().all(u8::is_ascii_hexdigit) {
+                    bail!("not a valid password")
+                }
                 let key = hex::decode(unsafe { str::from_utf8_unchecked(&key) })?;
                 if self.key != key[..self.key.len()] {
                     bail!("not a valid password")
